@@ -18,7 +18,7 @@ func init() {
 		"(R04.1) in sendRdb every replay goroutine (and its panic callback) sends exactly one result on every path, the collection loop receives cap(results) values, and the checkpoint write and the bidirectional offset store are dominated by 'no result was an error'; " +
 		"(R04.2) cancellation is not success: the checkpoint write is additionally dominated by a test that the replay context is still alive placed after the collection loop, or every result-producing function returns a non-nil error on its context-done case; " +
 		"(R04.3) every error edge of the snapshot parser (header, entry, footer) sends an entry carrying the error before the pipe is closed, completion is announced only after the footer check, and every consumer tests the entry's error before using it; " +
-		"(R04.4) the loader reads only through a tee into the CRC, and on every path Footer returns nil only after reading the stored checksum and finding it zero or equal; (R04.5) every explicit panic of the RDB decoding packages is reachable from a goroutine root only through a frame with a deferred recover (whole-program call graph); " +
+		"(R04.4) the loader reads only through a tee into the CRC, and on every path Footer returns nil only after reading the stored checksum and finding it zero or equal; (R04.8) every function that recovers a panic never panics again and, when it reports through an error variable, assigns it on every recovered path; (R04.9) the replies of a pipelined expanded entry are each checked in the iteration that received them; (R04.5) every explicit panic of the RDB decoding packages is reachable from a goroutine root only through a frame with a deferred recover (whole-program call graph); " +
 		"(R04.6) the cache-to-replay pumps return nil only when the announced snapshot size was delivered; (R04.7) every select that moves snapshot entries has a context-done alternative. Not decided: detection of every single-byte alteration (value-level), absence of hangs, memory bounds on corrupted lengths."
 }
 
@@ -36,6 +36,10 @@ func c04(w *core.World, r *core.Report) {
 	ruleWatchContext(w, r)
 	r.Rule("R04.5", "explicit panics of the RDB decoding packages are contained by a recover frame on every call path from a goroutine root", 1)
 	rulePanicContainment(w, r)
+	r.Rule("R04.8", "recovering frames never re-throw and assign an error on every path on which a panic was recovered", 6)
+	ruleRecoverFrames(w, r)
+	r.Rule("R04.9", "every reply of a pipelined expanded entry is checked in the iteration that received it", 1)
+	ruleReplyErrorsChecked(w, r)
 }
 
 // chanOf reports whether v denotes the channel created by mk (through cells / closures).
@@ -809,4 +813,159 @@ func rootPkg(f *ssa.Function) string {
 		}
 	}
 	return ""
+}
+
+// ---------------------------------------------------------------- R04.8 recover frames convert, never re-throw
+
+// ruleRecoverFrames: R04.5 treats a frame with a deferred recover as the place
+// where a decoder panic becomes an error. That holds only if the recovering
+// function (a) never panics itself (no re-throw for "some kinds" of panic:
+// damaged input produces runtime errors such as index out of range or
+// makeslice as easily as explicit panics) and (b), when it reports through an
+// error variable, assigns a non-nil error on every path on which something
+// was recovered.
+func ruleRecoverFrames(w *core.World, r *core.Report) {
+	n := 0
+	for _, f := range w.Funcs() {
+		var rec *ssa.Call
+		for _, in := range core.Instrs(f) {
+			if c, ok := in.(*ssa.Call); ok {
+				if b, ok := c.Call.Value.(*ssa.Builtin); ok && b.Name() == "recover" {
+					rec = c
+				}
+			}
+		}
+		if rec == nil {
+			continue
+		}
+		n++
+		name := core.FuncName(f)
+		var rethrow ssa.Instruction
+		for _, in := range core.Instrs(f) {
+			switch x := in.(type) {
+			case *ssa.Panic:
+				rethrow = x
+			case *ssa.Call:
+				if core.ResolveCall(x).Name == "pkg/util.PanicIfErr" {
+					rethrow = x
+				}
+			}
+		}
+		if rethrow != nil {
+			r.Fail("recover-frame/"+name, rethrow.Pos(), "a recovering frame panics again: whatever it re-throws (for example runtime errors, which damaged input provokes: index out of range, makeslice) escapes the decoder as a crash instead of an error")
+			continue
+		}
+		// error sink: *error parameter, or a captured/named error cell
+		isErrPtr := func(t types.Type) bool {
+			p, ok := t.Underlying().(*types.Pointer)
+			return ok && p.Elem().String() == "error"
+		}
+		var sinks []ssa.Value
+		for _, p := range f.Params {
+			if isErrPtr(p.Type()) {
+				sinks = append(sinks, p)
+			}
+		}
+		for _, fv := range f.FreeVars {
+			if isErrPtr(fv.Type()) {
+				sinks = append(sinks, fv)
+			}
+		}
+		if len(sinks) == 0 {
+			r.OK("recover-frame/"+name, f.Pos(), "recovers without re-throwing; reports through a callback")
+			continue
+		}
+		bad := false
+		paths := 0
+		core.EnumPaths(f.Blocks[0], 0, 5000, func(p *core.Path) {
+			if _, ok := p.End.(*ssa.Return); !ok {
+				return
+			}
+			recovered := false
+			for _, fct := range p.Conds {
+				c, ok := core.AsCmp(fct.Cond, fct.Val)
+				if ok && c.Op == token.NEQ && core.Unwrap(p.Resolve(c.X)) == ssa.Value(rec) && core.IsNilConst(c.Y) {
+					recovered = true
+				}
+			}
+			if !recovered {
+				return
+			}
+			paths++
+			stored := false
+			for _, in := range p.Instrs {
+				st, ok := in.(*ssa.Store)
+				if !ok || core.IsNilConst(st.Val) {
+					continue
+				}
+				for _, s := range sinks {
+					if st.Addr == s {
+						stored = true
+					}
+				}
+			}
+			if !stored {
+				bad = true
+			}
+		})
+		r.Check(!bad && paths > 0, "recover-frame/"+name, f.Pos(), "on a path on which a panic was recovered no error is assigned to the frame's error result: the caller sees success (paths with a recovered value: %d)", paths)
+	}
+	if n == 0 {
+		r.Fail("recover-frame", token.NoPos, "no recovering function found")
+	}
+}
+
+// ---------------------------------------------------------------- R04.9 every reply of an expanded entry is checked
+
+// ruleReplyErrorsChecked: commands of an expanded snapshot entry are pipelined
+// and their replies drained in a loop. An error reply to any of them means the
+// element was refused; it must end the replay with an error in the iteration
+// that received it. Carrying the error variable round the loop (testing it
+// only afterwards) keeps the last reply's error only.
+func ruleReplyErrorsChecked(w *core.World, r *core.Report) {
+	n := 0
+	for _, f := range w.FuncsIn("pkg/rdbrestore") {
+		for _, s := range core.Sites(f, false) {
+			if s.Method != "Receive" && s.Name != "(*pkg/redis/client.Redis).Receive" && !strings.HasSuffix(s.Name, ".Receive") {
+				continue
+			}
+			call, ok := s.Instr.(*ssa.Call)
+			if !ok {
+				continue
+			}
+			head := core.LoopHeadOf(call.Block())
+			if head == nil {
+				continue
+			}
+			n++
+			var errv ssa.Value
+			if refs := call.Referrers(); refs != nil {
+				for _, ref := range *refs {
+					if e, ok := ref.(*ssa.Extract); ok && e.Type().String() == "error" {
+						errv = e
+					}
+				}
+			}
+			cons := "reply-error/" + core.FuncName(f)
+			if errv == nil {
+				r.Fail(cons, s.Pos(), "the error of a drained reply is discarded: a refused element of an expanded value goes unnoticed and the snapshot is recorded as replayed")
+				continue
+			}
+			carried := false
+			for _, ref := range *errv.Referrers() {
+				if ph, ok := ref.(*ssa.Phi); ok && core.LoopHeadOf(ph.Block()) != nil {
+					carried = true
+				}
+				if st, ok := ref.(*ssa.Store); ok && st.Val == errv {
+					if _, isAlloc := st.Addr.(*ssa.Alloc); isAlloc {
+						carried = carried || !failureReturned(f, s)
+					}
+				}
+			}
+			r.Check(!carried && failureReturned(f, s), cons, s.Pos(), "a reply's error must end the replay in the iteration that received it (tested inside the drain loop, non-nil return); it is carried round the loop or not returned, so only the last reply's error survives (carried=%v)", carried)
+		}
+	}
+	if n == 0 {
+		r.Fail("reply-error", token.NoPos, "no reply drain loop found in the snapshot replay package")
+	}
 }
